@@ -221,6 +221,18 @@ def binop(E, op, a, b, node, fr):
         if ba is not None and bb is not None and ba.size() == bb.size():
             f = {ast.BitAnd: operator.and_, ast.BitOr: operator.or_, ast.BitXor: operator.xor}[type(op)]
             return SV(z3.BV2Int(f(ba, bb)), TInt)
+        # a non-negative constant operand with several bits: exact, bit by bit (x // 2**i % 2 is bit i of x for every int x)
+        for u, v in ((x, y), (y, x)):
+            vs = z3.simplify(v)
+            if z3.is_int_value(vs) and 0 <= vs.as_long() < (1 << 64) and bin(vs.as_long()).count("1") > 1 \
+                    and bin(vs.as_long() + 1).count("1") != 1:
+                cval = vs.as_long()
+                masked = z3.Sum([((u / z3.IntVal(1 << i)) % 2) * z3.IntVal(1 << i) for i in range(cval.bit_length()) if (cval >> i) & 1])
+                if isinstance(op, ast.BitAnd):
+                    return SV(masked, TInt)
+                if isinstance(op, ast.BitOr):
+                    return SV(u + cval - masked, TInt)
+                return SV(u + cval - 2 * masked, TInt)
         if isinstance(op, ast.BitAnd):
             for u, v in ((x, y), (y, x)):
                 k = as_pow2(v + 1)
@@ -441,6 +453,12 @@ def get_subscript(E, base, idx, node, fr):
                 if idx not in c[1]:
                     raise PyRaise("KeyError", line)
                 return c[1][idx]
+            # symbolic key into a small literal table: one path per entry (keys of a literal dict are distinct)
+            if len(c[1]) <= 16 and all(is_conc(k) and not isinstance(k, Ref) for k in c[1]):
+                for k, v in c[1].items():
+                    if E.fork(eq_term(E, idx, k, node, fr)):
+                        return v
+                raise PyRaise("KeyError", line)
             raise Unsupported("symbolic key into literal dict")
         if c[0] == "dict":
             return get_subscript(E, c[1], idx, node, fr)
